@@ -29,6 +29,7 @@ type Job struct {
 	PkgPath []string `json:"pkgpath"`
 	Variant int      `json:"variant"` // 0 default, 1 prune, 2 prune+GMW
 	Heavy   bool     `json:"heavy"`
+	Index   int      `json:"index"`
 	// generator knowledge (generated programs only)
 	Gen *GenInfo `json:"gen,omitempty"`
 }
